@@ -192,6 +192,50 @@ func verif_C14_support(fam, kind int) {
 }
 
 // constructors reject parameters outside the closure of the valid region
+// bit-precise: on the boundary of the support (neither strictly inside nor
+// strictly outside) the log-density is never NaN
+// grid 1: the parameters are taken from {1/2, 1, 2} (one path per combination)
+// and only x is symbolic, which lets the bit-precise solver hit boundaries that
+// are an equation between x and the parameters (GEV: xi (x - mu) / sigma = -1)
+func verif_C14_boundary(fam, kind, grid int) {
+	f := families()[fam]
+	var p []float64
+	if grid == 1 {
+		vals := []float64{0.5, 1, 2}
+		for i := 0; i < f.nparams; i++ {
+			p = append(p, vals[VerifChoice("p", 3)])
+		}
+	} else {
+		p = params(f, "p")
+	}
+	VerifAssume(f.valid(p))
+	// parameters and the evaluation point in a bounded box (the statement's
+	// quantifier): parameter magnitudes in [2^-10, 2^10], |x| <= 2^10
+	for _, v := range p {
+		a := math.Abs(v)
+		VerifAssume(a >= 0.0009765625)
+		VerifAssume(a <= 1024)
+	}
+	x := VerifFinite64("x")
+	VerifAssume(math.Abs(x) <= 1024)
+	VerifAssume(!f.support(p, x))
+	VerifAssume(!f.outside(p, x))
+	if f.integer {
+		VerifAssume(math.Floor(x) == x)
+	}
+	d, err := f.mk(elemType(kind), p)
+	if err != nil {
+		return
+	}
+	r := NewScalar(elemType(kind), 0)
+	if err := d.LogPdf(r, ConstFloat64(x)); err != nil {
+		return // an error is a loud answer
+	}
+	VerifReach("boundary")
+	v := r.GetFloat64()
+	VerifAssert(f.name+":boundary-of-support-not-NaN", v == v)
+}
+
 func verif_C14_ctor(fam, kind int) {
 	f := families()[fam]
 	p := params(f, "p")
@@ -285,6 +329,7 @@ func verif_C14_cdf(fam int) {
 }
 
 func init() {
+	VerifRegister("verif_C14_boundary", func(a []int) { verif_C14_boundary(a[0], a[1], a[2]) })
 	VerifRegister("verif_C14_cdf", func(a []int) { verif_C14_cdf(a[0]) })
 	VerifRegister("verif_C14_formula", func(a []int) { verif_C14_formula(a[0], a[1]) })
 	VerifRegister("verif_C14_support", func(a []int) { verif_C14_support(a[0], a[1]) })
